@@ -229,7 +229,39 @@ def trig_readout(w):
     return {"last_cron": safe(lambda: t.get_last_cron_execution(w.cron.condition_id)), "cond": t.get_condition(w.cron.condition_id) is not None, "n_valid": len(t.get_valid_conditions()),
             "claim_again": None}
 
-ALPHABETS = {"orch": (orch_op, orch_readout, 14), "store": (store_op, store_readout, 12), "trig": (trig_op, trig_readout, 9)}
+# ------------------------------------------------------------------ wait-graph alphabet (3 pre-registered invocations)
+WG = [(x, y) for x in range(3) for y in range(3) if x != y]      # 6 wait declarations
+def wg_op(w, op):
+    o = w.app.orchestrator
+    while len(w.invs) < 3:
+        inv = w.ta(len(w.invs))
+        w.invs.append(inv); w.alias[inv.invocation_id] = f"i{len(w.invs)-1}"
+    ids = [i.invocation_id for i in w.invs]
+    if op < 6:
+        x, y = WG[op]
+        if o.get_invocation_status(ids[x]).is_final() or o.get_invocation_status(ids[y]).is_final():
+            return None
+        return safe(lambda: o.waiting_for_results(ids[x], [ids[y]]))
+    if op < 9:
+        iid = ids[op - 6]
+        def finish():
+            st = o.get_invocation_status(iid)
+            if st == St.REGISTERED:
+                o.set_invocation_status(iid, St.PENDING, w.ctx["r1"]); st = St.PENDING
+            if st == St.PENDING:
+                o.set_invocation_status(iid, St.RUNNING, w.ctx["r1"]); st = St.RUNNING
+            if st == St.RUNNING:
+                o.set_invocation_status(iid, St.SUCCESS, w.ctx["r1"])
+        return safe(finish)
+    iid = ids[op - 9]
+    return safe(lambda: o.set_invocation_status(iid, St.PENDING, w.ctx["r1"]))
+
+def wg_readout(w):
+    o = w.app.orchestrator
+    return {"blocking": w.names(o.get_blocking_invocations(10)), "n1": len(list(o.get_blocking_invocations(1))),
+            "status": [o.get_invocation_status(i.invocation_id).value for i in w.invs]}
+
+ALPHABETS = {"orch": (orch_op, orch_readout, 14), "store": (store_op, store_readout, 12), "trig": (trig_op, trig_readout, 9), "wg": (wg_op, wg_readout, 12)}
 
 def differential(comp, ops):
     global LAST_DETAIL
@@ -306,7 +338,7 @@ def run(ctx: Ctx) -> None:
     thorough = ctx.tier == "thorough"
     src = SRC
     conds = []
-    for comp, n in (("orch", 14), ("store", 12), ("trig", 9)):
+    for comp, n in (("orch", 14), ("store", 12), ("trig", 9), ("wg", 12)):
         for a in range(n):
             f = F.replace("__COMP__", comp).replace("__A__", str(a)).replace("__N__", str(n))
             if thorough:
@@ -321,7 +353,7 @@ def run(ctx: Ctx) -> None:
     ctx.functions_encoded += ["every public method of Mem/SQLite Orchestrator used by the alphabet (register, status change, queries by task/call/arguments/status, pagination, counts, filters, retries, heartbeats, active runners, recovery scans, auto-purge, wait graph)",
                               "Mem/SQLite StateBackend (results, exceptions, history, workflow data, invocation lookup, purge), Broker, ClientDataStore",
                               "Mem/SQLite Trigger store (claim_trigger_run, store/get_last_cron_execution, emit_event, valid conditions, purge)"]
-    ctx.bounds = {"sequences": f"{4 if thorough else 3} operations per component alphabet (orchestrator 14 letters, stores 12, trigger store 9), split by first letter",
+    ctx.bounds = {"sequences": f"{4 if thorough else 3} operations per component alphabet (orchestrator 14 letters, stores 12, trigger store 9, wait graph 12), split by first letter",
                   "universe": "2 tasks, up to 3-4 invocations, 2 runners, controlled clock (advance 61 s; heartbeat timeout 60 s, pending limit 30 s, purge age 0)"}
     ctx.stubs += ["counter clock in both orchestrator modules", "sync history threads", "deterministic uuid4"]
     ctx.assumptions += ["'seeded random sequences of a few hundred operations' from the property text are sampling and are not part of this family's claim",
